@@ -74,7 +74,7 @@ func (s *Store) admitAtApply(req *pb.RaftCmdRequest) *pb.RegionError {
 // region. When the store is not leader or the request header is invalid the
 // returned response includes an appropriate RegionError.
 func (s *Store) ProposeCommand(req *pb.RaftCmdRequest) (*pb.RaftCmdResponse, error) {
-	peer, _, resp, err := s.validateCommand(req)
+	peer, meta, resp, err := s.validateCommand(req)
 	if err != nil {
 		return nil, err
 	}
@@ -106,6 +106,8 @@ func (s *Store) ProposeCommand(req *pb.RaftCmdRequest) (*pb.RaftCmdResponse, err
 		if result.resp == nil {
 			return &pb.RaftCmdResponse{Header: req.Header}, nil
 		}
+		// A scan that went through the log is confined to the region like a local read.
+		trimScanResponse(meta, req, result.resp)
 		return result.resp, nil
 	case <-timer.C:
 		s.command.removeProposal(id)
@@ -205,6 +207,12 @@ func validateRequestKeys(meta manifest.RegionMeta, req *pb.RaftCmdRequest) *pb.R
 			if len(start) > 0 && !keyInRange(meta, start) {
 				return epochNotMatchError(&meta)
 			}
+			// An empty start key means "from the very first key", which only the region
+			// without a lower bound owns: anywhere else the scan would begin in another
+			// region's keys and spend its limit there.
+			if len(start) == 0 && len(meta.StartKey) > 0 {
+				return epochNotMatchError(&meta)
+			}
 		case pb.CmdType_CMD_PREWRITE:
 			for _, mut := range r.GetPrewrite().GetMutations() {
 				if mut == nil {
@@ -266,8 +274,16 @@ func trimScanResponse(meta manifest.RegionMeta, req *pb.RaftCmdRequest, resp *pb
 		return
 	}
 	requests := req.GetRequests()
-	for i, r := range requests {
-		if r == nil || r.GetCmdType() != pb.CmdType_CMD_SCAN {
+	// The applier answers the non-nil requests in order and skips nil ones without leaving a
+	// gap, so the response of request i sits at the number of non-nil requests before it.
+	next := 0
+	for _, r := range requests {
+		if r == nil {
+			continue
+		}
+		i := next
+		next++
+		if r.GetCmdType() != pb.CmdType_CMD_SCAN {
 			continue
 		}
 		if i >= len(resp.Responses) {
@@ -278,7 +294,14 @@ func trimScanResponse(meta manifest.RegionMeta, req *pb.RaftCmdRequest, resp *pb
 			continue
 		}
 		scan := out.GetScan()
-		if scan == nil || len(scan.Kvs) == 0 {
+		if scan == nil {
+			continue
+		}
+		// A lock on a key at or beyond the region's end does not concern this region's scan.
+		if locked := scan.GetError().GetLocked(); locked != nil && len(meta.EndKey) > 0 && bytes.Compare(locked.GetKey(), meta.EndKey) >= 0 {
+			scan.Error = nil
+		}
+		if len(scan.Kvs) == 0 {
 			continue
 		}
 		kept := scan.Kvs[:0]
